@@ -321,6 +321,22 @@ Definition last_file (w : world) (m f : N) : bool :=
   | None => false
   end.
 
+(* K04-front on the source side of a move: the moved element is the first item of its (named-type) parent and a
+   SHORT-NAME element follows *)
+Definition src_front (w : world) (mv : id) : bool :=
+  match w_nodes w mv with
+  | Some mn => match n_parent mn with PElem p => remove_front w p (N.eqb mv) | _ => false end
+  | None => false
+  end.
+(* move_element_here_at inside the same parent (only the position changes), the parent being of a named type:
+   conservative form of K04-front for the re-positioning *)
+Definition same_parent_named (w : world) (h mv : id) : bool :=
+  named_node w h &&
+  match w_nodes w mv with
+  | Some mn => match n_parent mn with PElem p => p =? h | _ => false end
+  | None => false
+  end.
+
 Definition copy_container (w : world) (other : id) : bool :=
   negb (identifiable T w other) && existsb (identifiable T w) (walk (S (N.to_nat (w_next w))) w other).
 
@@ -335,8 +351,8 @@ Definition Known04 (w : world) (o : op) : bool :=
   | OpCopy h other => front w h (nm_of w other) None || copy_container w other
   | OpCopyAt h other pos => front w h (nm_of w other) (Some pos) || copy_container w other
   (* K04-move-short: a SHORT-NAME element is moved away from / into an element *)
-  | OpMove h mv => is_short_node w mv || front w h (nm_of w mv) None
-  | OpMoveAt h mv pos => is_short_node w mv || front w h (nm_of w mv) (Some pos)
+  | OpMove h mv => is_short_node w mv || front w h (nm_of w mv) None || src_front w mv
+  | OpMoveAt h mv pos => is_short_node w mv || front w h (nm_of w mv) (Some pos) || src_front w mv || same_parent_named w h mv
   (* K04-front for text items of mixed content *)
   | OpInsertCItem h _ pos => (pos =? 0) && identifiable T w h
   | OpRemoveCItem h pos =>
